@@ -157,3 +157,22 @@ theorem parseGeomF_cs_pos (rd : Nat → Nat) (g : Geom) (h : parseGeomF rd = .ok
     exact Nat.mul_pos (Nat.pos_of_ne_zero h1) (Nat.pos_of_ne_zero h2)
 
 end FatVerif.Spec
+
+namespace FatVerif.Spec
+
+/-- **`allowedWrite_iff_bytes_parsed`.**  `allowedWrite_iff_bytes` for the geometry parsed from ANY boot sector the
+    oracles accept — no hypothesis left: the C11 oracle is silent on a write iff every written byte is allowed. -/
+theorem allowedWrite_iff_bytes_parsed (rd : Nat → Nat) (g : Geom) (h : parseGeomF rd = .ok g) (pre : Img)
+    (owners : Std.HashMap Nat Owner) (touched : List String) (off len : Nat) (upper : Char → List Char) :
+    allowedWriteWith g pre owners touched off len upper = none ↔
+      ∀ q, off ≤ q → q < off + len → regionAllowed g pre owners touched upper (regionAt g q).1 = true :=
+  allowedWrite_iff_bytes g (parseGeomF_status rd g h) pre owners touched off len upper
+
+/-- **`regionAt_cluster_iff_parsed`.**  … and on such a geometry "cluster `c`" is exactly `[clusterOff c, clusterOff (c+1))`
+    inside the data region and the declared volume. -/
+theorem regionAt_cluster_iff_parsed (rd : Nat → Nat) (g : Geom) (h : parseGeomF rd = .ok g) (q c : Nat) :
+    (regionAt g q).1 = .cluster c ↔
+      (2 ≤ c ∧ g.clusterOff c ≤ q ∧ q < g.clusterOff (c + 1) ∧ q < g.dataEnd ∧ q < g.volumeBytes) :=
+  regionAt_cluster_iff g (parseGeomF_cs_pos rd g h) q c
+
+end FatVerif.Spec
